@@ -121,8 +121,10 @@ func pcieTopo(name string, parent []int, devSw []int) netTopo {
 }
 
 // hybridTopo: device 0 is the CPU on the root complex, devices 1.. are
-// accelerators below one PCIe switch, nvlinks connect accelerator pairs
-// (numbered from 0).
+// accelerators below one PCIe switch, nvlinks connect pairs of devices. The
+// NVLink connector numbers its devices in plug-in order and the root complex
+// plugs the CPU in first, so its device IDs are the harness's device numbers
+// (checked against the IDs PlugInDevice returns).
 func hybridTopo(name string, accels int, nvlinks [][2]int) netTopo {
 	return netTopo{name: name, devices: 1 + accels, live: len(nvlinks) == 0, knobs: []int{1, 2},
 		build: func(reg *capReg, ports []messaging.Port, flit, knob int) {
@@ -134,7 +136,9 @@ func hybridTopo(name string, accels int, nvlinks [][2]int) netTopo {
 			sw := nc.AddPCIeSwitch()
 			nc.ConnectSwitchesWithPCIeLink(root, sw)
 			for a := 0; a < accels; a++ {
-				nc.PlugInDevice(sw, []messaging.Port{ports[1+a]})
+				if id := nc.PlugInDevice(sw, []messaging.Port{ports[1+a]}); id != 1+a {
+					panic(fmt.Sprintf("harness: accelerator %d got NVLink device ID %d", 1+a, id))
+				}
 			}
 			for _, l := range nvlinks {
 				nc.ConnectDevicesWithNVLink(l[0], l[1], knob)
@@ -154,7 +158,8 @@ var netTopos = []netTopo{
 	pcieTopo("pcie-root-2sw", []int{0, 0}, []int{1, 2}),
 	hybridTopo("hybrid-2acc-nolink", 2, nil),
 	hybridTopo("hybrid-1acc", 1, nil),
-	hybridTopo("hybrid-2acc-nvlink", 2, [][2]int{{0, 1}}),
+	hybridTopo("hybrid-2acc-nvlink", 2, [][2]int{{1, 2}}),
+	hybridTopo("hybrid-2acc-cpulink", 2, [][2]int{{0, 1}}),
 	genericTopo("generic-line3", 3, [][2]int{{0, 1}, {1, 2}}, []int{0, 1, 2}, true),
 	genericTopo("generic-star4", 4, [][2]int{{0, 1}, {0, 2}, {0, 3}}, []int{1, 2, 3}, true),
 	genericTopo("generic-ring3", 3, [][2]int{{0, 1}, {1, 2}, {0, 2}}, []int{0, 1, 2}, false),
@@ -408,13 +413,13 @@ func netOptions(devices int, sizes []int, maxTick int) []netMsg {
 func enumNetCases(thorough bool, yield func(netCase) bool) {
 	fullSizes := []int{0, 1, 64, 100}
 	redSizes := []int{0, 100}
-	fullUpTo, redAt := 2, 3
+	fullUpTo, redAt, redTicks := 2, 3, 0
 	if thorough {
-		fullUpTo, redAt = 3, 4
+		fullUpTo, redAt, redTicks = 3, 4, 1
 	}
 	for _, topo := range netTopos {
 		full := netOptions(topo.devices, fullSizes, 1)
-		red := netOptions(topo.devices, redSizes, 1)
+		red := netOptions(topo.devices, redSizes, redTicks)
 		for _, flit := range []int{8, 64} {
 			for _, knob := range topo.knobs {
 				for _, stall := range []bool{false, true} {
@@ -445,9 +450,9 @@ func init() {
 	lib.Register(&lib.Check{
 		ID:    "C29",
 		Level: "exploration",
-		Rule: "every (topology, flit size, knob, drain mode, message multiset): 15 topologies built with the real connectors — mesh {1x2, 3x1, 2x2, 2x2x2} with 2..3 device tiles, PCIe trees {root+switch+1 device, root+switch+2 devices, root+switch+switch, root+2 switches} with the CPU on the root, NVLink/PCIe hybrids {1 accelerator, 2 accelerators without and with an NVLink}, generic {line3, star4, ring3, ring4}; flit size {8,64}; " +
+		Rule: "every (topology, flit size, knob, drain mode, message multiset): 16 topologies built with the real connectors — mesh {1x2, 3x1, 2x2, 2x2x2} with 2..3 device tiles, PCIe trees {root+switch+1 device, root+switch+2 devices, root+switch+switch, root+2 switches} with the CPU on the root, NVLink/PCIe hybrids {CPU + 1 accelerator, CPU + 2 accelerators: without NVLink, with an NVLink between the accelerators, with an NVLink between the CPU's and the first accelerator's NVLink switch}, generic {line3, star4, ring3, ring4}; flit size {8,64}; " +
 			"knob {1,2} = switch latency (mesh: also transfers per cycle; generic: also channels and buffer sizes; hybrid: also NVLink latency/width), mesh additionally with the builder defaults; devices drain one cycle after each arrival, or not before cycle 60; " +
-			"messages = every multiset of <= 2 (thorough <= 3) messages over (ordered device pair, TrafficBytes in {0,1,64,100}, send tick in {0,1}) plus every multiset of 3 (thorough 4) over (ordered device pair, TrafficBytes in {0,100}, send tick in {0,1}), sent in canonical order; the real network is run on the real serial engine until idle (or an event budget); " +
+			"messages = every multiset of <= 2 (thorough <= 3) messages over (ordered device pair, TrafficBytes in {0,1,64,100}, send tick in {0,1}) plus every multiset of 3 over (ordered device pair, TrafficBytes in {0,100}, send tick 0) (thorough: of 4 over (pair, {0,100}, send tick in {0,1})), sent in canonical order; the real network is run on the real serial engine until idle (or an event budget); " +
 			"hooks on the device ports give the ledger: every delivery must be a sent message, at its Dst port, with identical MsgMeta, at most once; in mesh/tree topologies every message must be delivered and the network must go idle. Each tuple is a distinct case.",
 		Sharded:     true,
 		MinOutcomes: 30,
@@ -455,7 +460,7 @@ func init() {
 			"devices are played by the harness (one port owner, sends and drains are events on the same engine); one port per device, incoming capacity 1, outgoing capacity 4",
 			"liveness is demanded only for mesh and tree topologies (incl. the hybrid without NVLink); for rings and NVLink hybrids only at-most-once, right place, intact metadata",
 			"ideal links only (the connectors refuse non-ideal links); Ethernet links of the NVLink connector are therefore not covered",
-			"message sets of the largest size use TrafficBytes {0,100} only (bound stated in the rule)",
+			"message sets of the largest size use TrafficBytes {0,100} only, and in the quick tier send tick 0 only (bound stated in the rule)",
 		},
 		Run: func(c *lib.Ctx) {
 			debug.SetGCPercent(800) // every case builds and drops a whole network; collect less often
